@@ -21,6 +21,7 @@ RULE_TEXT = (
 )
 PROBES = ["wraps_crossed", "destinations", "empty_sends", "messages_judged", "second_wrap"]
 RUNS = {"quick": 16, "thorough": 1600}
+SELFTEST_N = 2  # each plan is 130 000+ transmissions
 OFFER = ["offer", 0x1111, 1, 1, 0, 3]
 
 
